@@ -6,6 +6,7 @@ import (
 	"os"
 	"sort"
 	"strings"
+	"time"
 
 	"gvc/internal/eng"
 )
@@ -50,7 +51,14 @@ func vcCmd(args []string) {
 		if *only != "" && !strings.Contains(k, *only) {
 			continue
 		}
+		if c.Trusted {
+			continue
+		}
+		t0 := time.Now()
 		res := eng.VerifyFunction(p, c)
+		if *verbose {
+			fmt.Printf("vcgen %v\n", time.Since(t0))
+		}
 		if res.Err != "" {
 			fmt.Printf("ERROR %s: %s\n", k, res.Err)
 			bad++
